@@ -181,6 +181,7 @@ def analyse_case(c, log):
     hist = []            # entries: ["inv", tid, optext] / ["res", tid, restext]; inv entries patched when sp arrives
     pend = {}            # tid -> dict(op, idx, fn)
     opcount = collections.Counter()
+    modified = False
     for l in log["lines"]:
         t = l.split(" ")
         if len(t) < 3 or t[1] != "ev":
@@ -225,6 +226,8 @@ def analyse_case(c, log):
                 hist[p["idx"]] = None
                 continue
             optext, restext = sp.split(" = ")
+            if (restext == "true" and optext.split()[0] in ("insert", "erase")) or restext == "pair true true":
+                modified = True
             hist[p["idx"]][2] = optext
             hist.append(["res", tid, restext])
     # non-trivial: two operations overlap in real time and at least one operation modified the container
@@ -237,8 +240,6 @@ def analyse_case(c, log):
             open_ops += 1
         else:
             open_ops -= 1
-    modified = any(h is not None and h[0] == "res" and (h[2] == "true" and hist[i2][2].split()[0] in ("insert", "erase") or h[2] == "pair true true")
-                   for h in hist for i2 in [max(i for i, g in enumerate(hist[:hist.index(h)]) if g is not None and g[0] == "inv" and g[1] == h[1])] if h is not None and h[0] == "res")
     pending = len(pend)
     for p in pend.values():     # only when the step limit was hit
         hist[p["idx"]] = None
@@ -332,16 +333,24 @@ def observable_logs(ctx, variants, lin, cs, logs, rc, raw, tag, stats, report=Tr
 # --------------------------------------------------------------------------------------------------
 # (B) step correspondence: LV.Model.MichaelList vs cds::intrusive::MichaelList<gc::HP> (variants 0 and 3)
 STEP_VARIANTS = [0, 3]
+STEP_MODELS = [
+    {"name": "michael", "extract": "Extract_MichaelList.v", "variants": [0, 3], "shard": 0,
+     "what": "LV.Model.MichaelList and cds/intrusive/impl/michael_list.h (MichaelList<gc::HP>)"},
+    {"name": "lazy", "extract": "Extract_LazyList.v", "variants": [20, 23], "shard": 3,
+     "what": "LV.Model.LazyList and cds/intrusive/impl/lazy_list.h (LazyList<gc::HP>)"},
+    {"name": "iterable", "extract": "Extract_IterList.v", "variants": [40, 43], "shard": 6,
+     "what": "LV.Model.IterList and cds/intrusive/impl/iterable_list.h (IterableList<gc::HP>)"},
+]
 
 
-def gen_step_cases(ctx, rng, n, tag):
+def gen_step_cases(ctx, rng, n, tag, variants=(0, 3)):
     """programs aimed at the case splits of the proofs + random ones; keys 0..3, 2-3 threads x <= 4 ops"""
     cases = []
     erasers = [4, 5, 6, 7]
     readers = [8, 9, 10]
     inserters = [1, 2, 3]
     for i in range(n):
-        vid = STEP_VARIANTS[i % 2]
+        vid = variants[i % len(variants)]
         kind = rng.below(5)
         a = rng.below(3); b = a + 1 + rng.below(3 - a)      # a < b
         def ins(k):
@@ -380,15 +389,24 @@ def strip_sp(log):
     return {"lines": [l for l in log["lines"] if " ev sp " not in l], "end": log["end"], "extra": log["extra"]}
 
 
-def run_step(ctx, exes, variants, lin, stats, n, corpus):
-    """-> dict of measured numbers; reports violations"""
-    model = conc_check.build_model(ctx, "Extract_MichaelList.v")
-    cases = [c for c in corpus if c["cfg"][0] in STEP_VARIANTS and c["cfg"][1] == 1] + gen_step_cases(ctx, ctx.rng.fork(), n, "s")
-    cf = os.path.join(ctx.work, "step.txt")
+def exec_step(ctx, exes, spec, model, cases):
+    """model and real code on the same cases, concurrently"""
+    name = spec["name"]
+    cf = os.path.join(ctx.work, "step_%s.txt" % name)
     conc_check.write_cases(cf, cases)
-    rc1, out1 = vcheck.sh("%s %d < %s" % (model, 20000, cf), timeout=900)
-    mlog = conc_check.parse_logs(out1)
-    rc2, ilog, raw = run_shard(ctx, exes[0], cases, "step_impl")
+    with concurrent.futures.ThreadPoolExecutor(max_workers=2) as ex:
+        fm = ex.submit(vcheck.sh, "%s %d < %s" % (model, 20000, cf), 900)
+        fi = ex.submit(run_shard, ctx, exes[spec["shard"]], cases, "step_impl_" + name)
+        rc1, out1 = fm.result()
+        rc2, ilog, raw = fi.result()
+    return cases, conc_check.parse_logs(out1), rc2, ilog, raw
+
+
+def run_step(ctx, exes, variants, lin, stats, n, corpus, spec=None):
+    """-> dict of measured numbers; reports violations"""
+    spec = spec or STEP_MODELS[0]
+    name = spec["name"]
+    cases, mlog, rc2, ilog, raw = spec["_exec"]
     diverged = 0; first_div = None; steps = 0
     shapes = set(); contended = set(); helped = set(); kinds = collections.Counter()
     for c in cases:
@@ -403,7 +421,14 @@ def run_step(ctx, exes, variants, lin, stats, n, corpus):
         shape = hash(tuple(m["lines"]))
         shapes.add(shape)
         ncasfail = sum(1 for l in m["lines"] if " cas " in l and l.endswith(" 0"))
-        if ncasfail:
+        locks = set(); spun = False
+        for l in m["lines"]:
+            t = l.split(" ")
+            if len(t) == 4 and t[1] == "xchg":
+                locks.add(t[2])
+            elif len(t) == 4 and t[1] == "ld" and t[2] in locks:
+                spun = True            # a thread found a node lock taken and spins on it
+        if ncasfail or spun:
             contended.add(shape)
         for l in m["lines"]:
             t = l.split(" ")
@@ -414,19 +439,19 @@ def run_step(ctx, exes, variants, lin, stats, n, corpus):
             if first_div is None:
                 first_div = (c, d)
     # the same real executions through the implementation-side monitors (lincheck, quiescent traversal, functors)
-    nbad = observable_logs(ctx, variants, lin, cases, ilog, rc2, raw, "step", stats, report=True)
+    nbad = observable_logs(ctx, variants, lin, cases, ilog, rc2, raw, "step_" + name, stats, report=True)
     if first_div is not None and nbad == 0:
         c, d = first_div
         # the correspondence broke: look for a real failure over an enlarged seed set, on every MichaelList variant
         more = collections.defaultdict(list)
         rng = ctx.rng.fork()
-        extra = gen_step_cases(ctx, rng, 3000, "x")
-        found = observable(ctx, exes, variants, lin, {0: extra}, "search", {}, report=True)
+        extra = gen_step_cases(ctx, rng, 3000, "x" + name, spec["variants"])
+        found = observable(ctx, exes, variants, lin, {spec["shard"]: extra}, "search_" + name, {}, report=True)
         if not found:
-            ctx.violation("step correspondence between LV.Model.MichaelList and cds/intrusive/impl/michael_list.h (MichaelList<gc::HP>) no longer holds",
-                          {"correspondence": "Model/MichaelList.v vs cds::intrusive::MichaelList<cds::gc::HP>", "case": c, "first_divergence": d}, no_input=True)
+            ctx.violation("step correspondence between %s no longer holds" % spec["what"],
+                          {"correspondence": spec["what"], "case": c, "first_divergence": d}, no_input=True)
     return {"step_cases": len(cases), "step_diverged": diverged, "impl_steps_compared": steps, "distinct_event_logs": len(shapes),
-            "distinct_event_logs_with_failed_cas": len(contended), "access_histogram": dict(kinds),
+            "distinct_event_logs_with_failed_cas": len(contended),   # lazy list: a thread spinning on a taken node lock "access_histogram": dict(kinds),
             "traces_validated_against_impl": len(cases) - diverged}
 
 
@@ -518,8 +543,24 @@ def run(ctx):
     ctx.log("observable: %d variants, %d cases, %d bad" % (len(variants), sum(s["cases"] for s in stats.values()), nbad))
 
     # ---- (B) step correspondence for intrusive MichaelList<HP> ----
-    stepinfo = run_step(ctx, exes, variants, lin, stats, 6000 if ctx.thorough() else 1500, corpus)
-    ctx.log("step: %(step_cases)d cases, %(step_diverged)d diverged, %(impl_steps_compared)d accesses compared, %(distinct_event_logs_with_failed_cas)d distinct logs with a failed CAS" % stepinfo)
+    stepinfo = {}
+    nstep = 6000 if ctx.thorough() else 1200
+    prepared = []
+    for spec in STEP_MODELS:        # models and cases first (one random stream), then all executions in parallel
+        model = conc_check.build_model(ctx, spec["extract"], tag="model_" + spec["name"])
+        cases = [c for c in corpus if c["cfg"][0] in spec["variants"] and c["cfg"][1] == 1] + gen_step_cases(ctx, ctx.rng.fork(), nstep, "s" + spec["name"], spec["variants"])
+        prepared.append((spec, model, cases))
+    with concurrent.futures.ThreadPoolExecutor(max_workers=len(prepared)) as ex:
+        futs = [ex.submit(exec_step, ctx, exes, sp, mo, cs) for sp, mo, cs in prepared]
+        for (sp, mo, cs), f in zip(prepared, futs):
+            sp["_exec"] = f.result()
+    for spec in STEP_MODELS:
+        si = run_step(ctx, exes, variants, lin, stats, 6000 if ctx.thorough() else 1500, corpus, spec)
+        ctx.log(("step[%s]: " % spec["name"]) + "%(step_cases)d cases, %(step_diverged)d diverged, %(impl_steps_compared)d accesses compared, %(distinct_event_logs_with_failed_cas)d distinct logs with a failed CAS" % si)
+        stepinfo["step_" + spec["name"]] = si
+    stepinfo["traces_validated_against_impl"] = sum(v["traces_validated_against_impl"] for v in stepinfo.values())
+    stepinfo["step_cases"] = sum(v["step_cases"] for k, v in stepinfo.items() if isinstance(v, dict))
+    stepinfo["step_diverged"] = sum(v["step_diverged"] for k, v in stepinfo.items() if isinstance(v, dict))
 
     if res is not None and not res.ok:
         ctx.violation("Coq obligations of C13 do not check: %s" % (res.failed[:2],), {"theorem": [f[2] for f in res.failed], "errors": res.failed[:3]}, no_input=True)
@@ -539,7 +580,7 @@ def run(ctx):
         "op_result_histogram": dict(tot_ops),
         "histories_decided_by_verified_lincheck": sum(sum(s["verdicts"].values()) for s in stats.values()),
         "samples": [by_shard[shard_of[min(variants)]][0]] if variants else [],
-        "modelled": "cds::intrusive::MichaelList<cds::gc::HP> (search with helping, link_node, unlink_node, insert_at, update_at, erase_at, unlink_at, extract_at, find_at, get_at, HP guard traffic)",
+        "modelled": "cds::intrusive::MichaelList<cds::gc::HP> (search with helping, link_node, unlink_node, insert_at, update_at, erase_at, unlink_at, extract_at, find_at, get_at, HP guard traffic) [theorems]; cds::intrusive::LazyList<cds::gc::HP> (search, node spin locks, validate, link_node, unlink_node, all *_at) and cds::intrusive::IterableList<cds::gc::HP> (search, inserting_search, find_prev, link_data, unlink_data, all *_at) [step models tied by correspondence, no theorems yet]",
     })
     ctx.coverage.update(stepinfo)
     hpinfo = run_hp_copy(ctx)
